@@ -89,6 +89,7 @@ def absorb(run: core.Run, r: dict[str, Any], per_entry: dict[str, Counter]) -> N
     st = r['status']
     pe = per_entry.setdefault(name, Counter())
     pe[st] += 1
+    pe['wall_ms'] += int(1000 * r.get('wall', 0))
     for k, v in r.get('counters', {}).items():
         run.count(k, v)
     if st == 'harness_error':
